@@ -3,6 +3,9 @@
 use super::*;
 include!("/verif/harness/common.rs");
 
+// slice-based family, selected per property at compile time (see harness/ripd/session.rs)
+include!(env!("VERIF_SLICE_C12"));
+
 fn kani_workspace() -> Workspace {
     Workspace {
         root: PathBuf::from("/r"),
